@@ -31,18 +31,19 @@ void __real_free(void *);
 /* ---- live-pointer table ---------------------------------------------------------------------------------- */
 #define VERIF_TBL_BITS 20
 #define VERIF_TBL_SIZE (1u << VERIF_TBL_BITS)
-static struct { void *p; long tag; } *verif_tbl;
+static struct { void *p; long tag; void *ra; } *verif_tbl;
 static long verif_case = 0;
 static int verif_tracking = 1;
 
 static unsigned verif_hash(void *p) { uintptr_t x = (uintptr_t) p; x ^= x >> 17; x *= 0x9E3779B97F4A7C15ull; return (unsigned) (x >> (64 - VERIF_TBL_BITS)); }
 
+static void *verif_cur_ra;
 static void verif_track(void *p) {
     unsigned i, n;
     if (!p || !verif_tracking) return;
     if (!verif_tbl) { verif_tbl = __real_calloc(VERIF_TBL_SIZE, sizeof(*verif_tbl)); if (!verif_tbl) return; }
     for (i = verif_hash(p), n = 0; n < VERIF_TBL_SIZE; i = (i + 1) & (VERIF_TBL_SIZE - 1), n++) {
-        if (verif_tbl[i].p == NULL || verif_tbl[i].p == (void *) 1 || verif_tbl[i].p == p) { verif_tbl[i].p = p; verif_tbl[i].tag = verif_case; return; }
+        if (verif_tbl[i].p == NULL || verif_tbl[i].p == (void *) 1 || verif_tbl[i].p == p) { verif_tbl[i].p = p; verif_tbl[i].tag = verif_case; verif_tbl[i].ra = verif_cur_ra; return; }
     }
 }
 
@@ -59,11 +60,23 @@ static long verif_untrack(void *p) {
 
 static void verif_case_begin(void) { verif_case++; }
 
+/* an executor's own cache that deliberately outlives the request must not count as a leak of that request */
+#define VERIF_UNTRACKED(stmt) do { int _vt = verif_tracking; verif_tracking = 0; stmt; verif_tracking = _vt; } while (0)
+
 /* number of tracked pointers allocated during the current case that are still live */
 static long verif_case_leaks(void) {
     unsigned i; long n = 0;
     if (!verif_tbl) return 0;
-    for (i = 0; i < VERIF_TBL_SIZE; i++) if (verif_tbl[i].p > (void *) 1 && verif_tbl[i].tag == verif_case) n++;
+    for (i = 0; i < VERIF_TBL_SIZE; i++) if (verif_tbl[i].p > (void *) 1 && verif_tbl[i].tag == verif_case) {
+        n++;
+#if defined(__SANITIZE_ADDRESS__)
+        if (getenv("VERIF_LEAKSITES")) {       /* diagnostic aid: where was the leaked block allocated? */
+            char buf[300]; buf[0] = 0;
+            __sanitizer_symbolize_pc(verif_tbl[i].ra, "%s:%l %f", buf, sizeof(buf));
+            fprintf(stderr, "VERIF-LEAK-SITE %s\n", buf);
+        }
+#endif
+    }
     return n;
 }
 
@@ -125,6 +138,7 @@ static int should_fail(int c, void *ra) {
 
 
 void *__wrap_malloc(size_t n) {
+    verif_cur_ra = __builtin_return_address(0);
     void *p;
     if (should_fail(0, __builtin_return_address(0))) { ev("X%ld ", counts[0]); return NULL; }
     p = __real_malloc(n);
@@ -133,6 +147,7 @@ void *__wrap_malloc(size_t n) {
     return p;
 }
 void *__wrap_calloc(size_t a, size_t b) {
+    verif_cur_ra = __builtin_return_address(0);
     void *p;
     if (should_fail(0, __builtin_return_address(0))) { ev("X%ld ", counts[0]); return NULL; }
     p = __real_calloc(a, b);
@@ -141,6 +156,7 @@ void *__wrap_calloc(size_t a, size_t b) {
     return p;
 }
 void *__wrap_realloc(void *q, size_t n) {
+    verif_cur_ra = __builtin_return_address(0);
     void *p;
     if (should_fail(0, __builtin_return_address(0))) { ev("X%ld ", counts[0]); return NULL; }
     if (armed && q) { long o = forget(q); if (o >= 0) ev("R%ld ", o); else ev("Rp ", 0); }
@@ -150,6 +166,7 @@ void *__wrap_realloc(void *q, size_t n) {
     return p;
 }
 char *__wrap_strdup(const char *s) {
+    verif_cur_ra = __builtin_return_address(0);
     char *p;
     if (should_fail(0, __builtin_return_address(0))) { ev("X%ld ", counts[0]); return NULL; }
     p = __real_strdup(s);
